@@ -16,6 +16,23 @@ def run(ctx):
     C.rule('C17-SIB-mask', 'the mask returned by the compatibility walk is the AND of every mask it consulted')
     cw = P.get('Element::check_version_compatibility')
     pc = P.get('ArxmlParser::parse_character_data')
+    # character data of EVERY kind is judged against the specification of the target-version type: a `true` verdict of
+    # CharacterData::check_version_compatibility is either the enum-item version test or the result of a validation against the given spec
+    # (a type that is a plain string in one version and pattern-restricted in the next keeps its name)
+    C.rule('C17-MUST-value', 'CharacterData::check_version_compatibility returns `compatible` only as the outcome of the enum-item version test or of CharacterData::check_value against the specification of the target-version element type; a constant `true` for the non-enum kinds is a hole')
+    cc = P.find('CharacterData::check_version_compatibility')
+    if cc is None:
+        C.anchor_missing('C17-MUST-value', 'CharacterData::check_version_compatibility')
+    else:
+        from flow import const_val as _cv
+        guards = [pos for pos, t in cc.iter_calls() if call_matches(t, r'Iterator>?::find$|AutosarVersion::compatible$|CharacterData>?::check_value$|Option::<T>::(map_or|is_some_and)$')]
+        consts = []
+        for pos, st in cc.iter_stmts():
+            if st['k'] == 'assign' and st['rv']['k'] == 'agg' and st['rv'].get('ak') == 'tuple' and st['rv']['ops'] and not is_local_op(st['rv']['ops'][0]) and str(_cv(st['rv']['ops'][0])) == 'true':
+                consts.append(pos)
+        bad = [p_ for p_ in consts if not any(cc.pos_dominates(g, p_) for g in guards)]
+        C.check(not bad, 'C17-MUST-value', 'CharacterData::check_version_compatibility|true-only-after-a-test', 'character data that is not an enum value is reported compatible with the target version without being validated against the target type: a text that violates the pattern the element has in the target version passes the check, set_version succeeds, and the strict loader rejects the relabelled file',
+                cc.where(bad[0]) if bad else '', sample={'fn': 'CharacterData::check_version_compatibility', 'constant_true_verdicts': len(consts)})
     pe = P.get('ArxmlParser::parse_element')
     pa = P.get('ArxmlParser::parse_attribute_text')
     fe = P.get('ArxmlParser::find_element_in_spec_checked')
